@@ -139,9 +139,16 @@ def const_index_source(fa, S, op, depth=0, seen=None):
 # ---- writer side helpers ------------------------------------------------------------------
 
 def rows_for(E, fa, S, wparam):
-    """Text calls of a function whose writer derives from MIR argument `wparam`."""
-    return [tc for tc in fmt.text_calls(E, fa)
-            if tc["writer"] is not None and fmt.writer_root(E, fa, tc["writer"]) == wparam]
+    """Text calls of a function whose writer derives from MIR argument `wparam`. If the function
+    does not write to that writer through write_fmt / write_all at all (the text is assembled
+    some other way), the row templates cannot be decoded: undecided (engine error), never a
+    verdict on rows that were not seen."""
+    out = [tc for tc in fmt.text_calls(E, fa)
+           if tc["writer"] is not None and fmt.writer_root(E, fa, tc["writer"]) == wparam]
+    if not out:
+        raise EngineError("FMT: %s emits nothing to writer parameter %s through write_fmt/"
+                          "write_all; its row templates cannot be decoded" % (fa.fn.path, wparam))
+    return out
 
 
 def logical_rows(E, fa, S, wparam):
@@ -632,6 +639,18 @@ def corpus_format(ctx):
     WS = Sym(E, wfa)
     wparam = 2   # Example::write(&self, wtr)
     rows = logical_rows(E, wfa, WS, wparam)
+    # write_all / write discipline first: it is independent of how the text is assembled
+    bare = [b for b, t in wfa.calls()
+            if any(strip_generics(x).endswith("io::Write::write") for x in callee_paths(t))]
+    ctx.ob("FMT", "corpus|Example::write|no-partial-write", not bare, fn_loc(crate, wp),
+           "output goes through write_fmt/write_all (complete writes)" if not bare else
+           "Example::write uses Write::write, which may write only part of the buffer and drop "
+           "token lines or the EOS line")
+    if not rows:
+        # the text is assembled in another way (e.g. pushed into a String and written once):
+        # the row templates cannot be read off write_fmt calls - undecided, not a violation
+        raise EngineError("FMT: Example::write does not emit its rows through write_fmt/writeln!; "
+                          "the row template cannot be decoded")
     tok = [tc for tc in rows if len([q for q in tc["pieces"] if q[0] == "arg"]) == 2]
     end = [tc for tc in rows if not [q for q in tc["pieces"] if q[0] == "arg"]]
     ok = len(tok) == 1
@@ -651,13 +670,6 @@ def corpus_format(ctx):
     ctx.ob("FMT", "corpus|Example::write|terminator", ok and ok_path, fn_loc(crate, wp),
            "every example ends with the line the reader recognises (%r)" % eos if ok and ok_path else
            "Example::write does not end every example with %r + newline" % eos)
-    # write_all / write discipline: no bare `write` (may write partially)
-    bare = [b for b, t in wfa.calls()
-            if any(strip_generics(x).endswith("io::Write::write") for x in callee_paths(t))]
-    ctx.ob("FMT", "corpus|Example::write|no-partial-write", not bare, fn_loc(crate, wp),
-           "output goes through write_fmt/write_all (complete writes)" if not bare else
-           "Example::write uses Write::write, which may write only part of the buffer and drop "
-           "token lines or the EOS line")
     # tokenizer CLI (MeCab mode)
     tb = F.crate("tokenize-bin")
     TE = Effects(tb)
